@@ -253,6 +253,8 @@ func checkC08(c *Ctx) {
 	c.Rule("R8.1", "reset completeness: every mutable field of a pooled struct is neutralised before Put or reassigned after Get", 7)
 	c.Rule("R8.2", "every Pool.Get/Put site is accounted for: Put of a function's own parameter makes it a release function, any other Put is a release point in place", 9)
 	c.Rule("R8.3", "no use of an object, and no escaping reference into its storage, after it was released", 8)
+	c.Rule("R8.11", "the reflection scratch buffer is emptied before every use, and whenever it is exchanged the reflection encoder is rebuilt over the new one (an encoder left bound to a buffer that went back to the pool writes into the next owner's entry)", 1)
+	c.As(map[string]string{"R10.7": "R8.11"}, func() { c10ScratchReset(c, "R10.7") })
 	c.Rule("R8.10", "no Core keeps the caller's field slice: what Write (or With) records is a copy (the caller may reuse its slice for the next call, which would rewrite what was already recorded)", 2)
 	c8NoRetainedFields(c, "R8.10")
 	c.Rule("R8.4", "a buffer is released at most once: field cleared (or holder recycled) after Free; EncodeEntry's buffer freed exactly once after the write", 3)
